@@ -334,7 +334,9 @@ impl<H: Header> DynSizedStructure<H> {
         let ptr = bytes.as_ptr().cast::<H>();
         let hdr = unsafe { &*ptr };
 
-        if hdr.payload_len() > bytes.len() {
+        // `BytesRef` guarantees `bytes.len() >= size_of::<H>()`. The payload
+        // must fit into what is left after the header.
+        if hdr.payload_len() > bytes.len() - mem::size_of::<H>() {
             return Err(MemoryError::InvalidReportedTotalSize);
         }
 
